@@ -5,7 +5,7 @@ META = dict(
                 "ParseRange on symbolic strings against an independent parser of the documented forms, Transform for all range forms and bounds.",
     functions=["fzf.awkTokenizer", "fzf.Tokenize", "fzf.withPrefixLengths", "fzf.ParseRange", "fzf.newRange", "fzf.Transform", "fzf.JoinTokens",
                "util.ToChars", "strings.SplitAfter (real code over strings.Index model)", "strconv.Atoi (real code)"],
-    outside=["regular-expression delimiters beyond the contract stub", "{N} placeholder template regex", "lines longer than the bound"],
+    outside=["regular-expression delimiters on symbolic lines (the regex harness enumerates concrete lines and runs Go's regexp natively)", "{N} placeholder template regex", "lines longer than the bound"],
     models=["strings.Index / strings.Count naive models", "bytes.Buffer executed as real code"],
     assumptions=[],
 )
@@ -26,4 +26,6 @@ def suites(tier):
     cfg = dict(ntmax=3 if q else 4, lim=4 if q else 7)
     jobs.append(dict(id=jid("transform", cfg), func="zzH_C10_transform", cfg=cfg))
     jobs.append(dict(id="nth", func="zzH_C10_nth", cfg={}))
+    for rx in ("[:,]", "[:,]+"):
+        jobs.append(dict(id="re:" + rx, func="zzH_C10_re", cfg=dict(nmax=4 if q else 6), cfgs=dict(regex=rx)))
     return [src_suite("src", jobs)]
